@@ -224,6 +224,9 @@ func execute(run *ev.Run, s *spec, router int, pl pool) {
 			return
 		}
 		run.Count("outcome", "mustRefuse:refused")
+		if primary == "post-disabled" {
+			run.Observed("post-disabled-refused:" + rn)
+		}
 		run.Count("refusal_error:"+rn, o.errCode)
 		run.Count("refusal_status", fmt.Sprint(o.status))
 		for _, mth := range o.mutating {
@@ -291,7 +294,7 @@ func main() {
 		"grant material is minted under a conforming registration (Basic, all grants) of the same client id; the registration under test is installed before the judged request (the statement speaks about the registration at the time of the request)",
 		"jwt-bearer grant: the assertion is the credential and the library resolves no op.Client for it, so an issuer that is a client without that grant is grey",
 		"client_credentials and introspection authenticate an opaque caller id purely through storage (no op.Client registration is resolved; an introspection caller may be a service account without registration), so a credential of the other kind that the storage accepts there is grey",
-		"a right secret in a non-canonical encoding, right+wrong secrets together, a secret sent by POST while the provider has POST disabled, a valid assertion while private_key_jwt is disabled are grey",
+		"a right secret in a non-canonical encoding, right+wrong secrets together, a valid assertion while private_key_jwt is disabled are grey (HEAD is not uniform there); a registered secret that travels only in the form / query while the provider has client_secret_post disabled is NOT an authentication (must-refuse: post-disabled)",
 	)
 	var mand []string
 	for _, rn := range opdrv.RouterNames {
@@ -301,7 +304,7 @@ func main() {
 		for _, r := range []string{"unknown-client", "no-client", "wrong-secret", "wrong-kind-secret", "wrong-kind-assertion", "bad-assertion", "no-credential", "grant-unregistered", "grant-disabled", "grant-unknown", "malformed-credential", "mixed-identity"} {
 			mand = append(mand, "seen:"+rn+":"+r)
 		}
-		mand = append(mand, "ok-with-grant_type-in-query-only:"+rn, "devauth-mixed-identity-stored-for-authenticated-client:"+rn)
+		mand = append(mand, "post-disabled-refused:"+rn, "ok-with-grant_type-in-query-only:"+rn, "devauth-mixed-identity-stored-for-authenticated-client:"+rn)
 	}
 	n := run.N(3*coreCells, 80*coreCells)
 	if rc := run.ReplayCase(); rc >= 0 {
